@@ -60,6 +60,7 @@ type relayCfg struct {
 	policy, quota                           int
 	hasAuth                                 bool
 	listenerV6                              bool
+	authOverride                            AuthHandler
 }
 
 type relayWorld struct {
@@ -228,6 +229,9 @@ func newRelayWorld(t *testing.T, rng *verifsim.RNG, cfg relayCfg) *relayWorld {
 			return "", nil, false
 		}
 	}
+	if cfg.authOverride != nil {
+		auth = cfg.authOverride
+	}
 	var quota QuotaHandler
 	if cfg.quota == 1 {
 		quota = func(user, _ string, _ net.Addr) bool { return user != "uid2" }
@@ -253,6 +257,11 @@ func newRelayWorld(t *testing.T, rng *verifsim.RNG, cfg relayCfg) *relayWorld {
 	nh, _ := server.NewShortNonceHash(0)
 	w.foreignNonce, _ = nh.Generate()
 	return w
+}
+
+func newRelayWorldAuth(t *testing.T, rng *verifsim.RNG, cfg relayCfg, h AuthHandler) *relayWorld {
+	cfg.authOverride = h
+	return newRelayWorld(t, rng, cfg)
 }
 
 func (w *relayWorld) coqConfig() string {
